@@ -43,6 +43,10 @@ type SkipStep struct {
 	// Style: "rel-dot" = from the project root with --spokfile ./spokfile; "rel-parent" = from the
 	// parent directory with --spokfile <project>/spokfile
 	Style string `json:"style,omitempty"`
+	// ROCache: while this invocation lasts, .spok/cache.json (if there is one) cannot be written by the
+	// user running spok. spok may stop with an error; whatever it does, it has no way of recording
+	// anything, and what it had recorded for tasks it did not run is as good as before.
+	ROCache bool `json:"ro_cache,omitempty"`
 }
 
 var skipFiles = []string{"in.txt", "src/a.go", "src/b.go", "data.json"}
@@ -92,6 +96,7 @@ func genSkipBody(t *rapid.T) SkipCase {
 		case 3:
 			st.Style, st.Nested = "rel-parent", false
 		}
+		st.ROCache = i > 0 && rapid.IntRange(0, 7).Draw(t, "ro_cache") == 0
 		if useDefault {
 			st.Via = "default"
 		}
@@ -230,6 +235,7 @@ func execSkip(id string, s *ev.Shard, b *sandbox.Box, c SkipCase) *rp.Fail {
 	}
 	visit(0)
 	version := 0
+	unknown := map[int]bool{}
 	sawSkip, sawRerun := false, false
 	for si, st := range c.Steps {
 		if st.Edit != "" {
@@ -271,8 +277,28 @@ func execSkip(id string, s *ev.Shard, b *sandbox.Box, c SkipCase) *rp.Fail {
 		default:
 			args = append(args, c.name(0))
 		}
+		cacheFile := filepath.Join(b.Proj, ".spok", "cache.json")
+		if st.ROCache {
+			_ = os.Chmod(cacheFile, 0o444)
+		}
 		r := b.Run(cwd, env, runTimeout, args...)
+		if st.ROCache {
+			_ = os.Chmod(cacheFile, 0o644)
+		}
 		log := readLog(logPath)
+		if st.ROCache {
+			// nothing is demanded of this invocation itself (C10 and C09 look at such runs); a task
+			// that ran in it could not be recorded: until it runs again either outcome is right for it
+			for i := range closure {
+				if contains(log, fmt.Sprintf("ran%d", i)) {
+					unknown[i] = true
+				}
+			}
+			if s != nil {
+				s.Class("invocation_with_read_only_cache_file")
+			}
+			continue
+		}
 		if os.Getenv("VERIF_DEBUG") != "" {
 			fmt.Fprintf(os.Stderr, "DEBUG step %d cwd=%s args=%v\nstdout: %s\nstderr: %s\n", si, cwd, args, r.Stdout, r.Stderr)
 		}
@@ -283,6 +309,12 @@ func execSkip(id string, s *ev.Shard, b *sandbox.Box, c SkipCase) *rp.Fail {
 		for i := range closure {
 			ran := contains(log, fmt.Sprintf("ran%d", i))
 			mustRun := c.FileDep[i] == "" || lastOn[i] == nil || !same(lastOn[i], snapshot(i))
+			if unknown[i] && c.FileDep[i] != "" {
+				if ran {
+					lastOn[i], unknown[i] = snapshot(i), false
+				}
+				continue
+			}
 			switch {
 			case mustRun && !ran && id != "C02":
 				why := "it has no file dependency"
